@@ -20,9 +20,7 @@ import (
 	"encoding/json"
 	"fmt"
 	"io"
-	"net"
-	"net/http"
-	"net/http/httptest"
+		"net/http"
 	"sort"
 	"strings"
 	"sync"
@@ -40,7 +38,7 @@ import (
 var byHost sync.Map // host:port of an instance's active node -> *inst
 
 var realTransport = &http.Transport{
-	DialContext:         (&net.Dialer{Timeout: 10 * time.Second}).DialContext,
+	DialContext:         dial,
 	MaxIdleConns:        0,
 	MaxIdleConnsPerHost: 64,
 	IdleConnTimeout:     30 * time.Second,
@@ -50,6 +48,9 @@ type network struct{}
 
 func (network) RoundTrip(req *http.Request) (*http.Response, error) {
 	v, ok := byHost.Load(req.URL.Host)
+	if !ok && req.URL.Path == "/ha/sessions/stream" {
+		harnessFail("stream request for an unknown instance " + req.URL.Host)
+	}
 	if !ok || req.URL.Path != "/ha/sessions/stream" {
 		return realTransport.RoundTrip(req)
 	}
@@ -78,7 +79,7 @@ var missSeen atomic.Bool
 
 func arrivalTimeout() time.Duration {
 	if missSeen.Load() {
-		return 400 * time.Millisecond
+		return 30 * time.Millisecond
 	}
 	return 10 * time.Second
 }
@@ -115,6 +116,7 @@ type streamEvent struct {
 	id        int
 	v         int
 	heartbeat bool
+	seq       uint64
 }
 
 type inst struct {
@@ -123,7 +125,8 @@ type inst struct {
 	standbyStore *ha.InMemorySessionStore
 	active       *ha.HASyncer
 	standby      *ha.HASyncer
-	srv          *httptest.Server
+	srv          *http.Server
+	ln           *memListener
 	host         string
 
 	phase string // "down" | "synced" | "streaming"  (the standby reconnect loop, played by the harness)
@@ -138,7 +141,14 @@ type inst struct {
 	upstream io.Closer
 	cancelUp context.CancelFunc
 	streamDone chan error
+
+	// end-to-end mode (e2e.go): events are handed over as soon as the standby asks
+	free          bool
+	handedSeq     uint64 // sequence number of the last change handed to the standby
+	idleAfterHand bool   // the standby has asked for more data since then
 }
+
+func newCond(in *inst) *sync.Cond { return sync.NewCond(&in.mu) }
 
 func newInst(s *SSystem) *inst {
 	in := &inst{s: s, phase: "down"}
@@ -148,8 +158,10 @@ func newInst(s *SSystem) *inst {
 	ac := ha.DefaultSyncConfig()
 	ac.NodeID, ac.Role = "bng-active", ha.RoleActive
 	in.active = ha.NewHASyncer(ac, in.activeStore, zap.NewNop())
-	in.srv = httptest.NewServer(in.active.VerifHandler())
-	in.host = in.srv.Listener.Addr().String()
+	in.ln = newMemListener()
+	in.srv = &http.Server{Handler: in.active.VerifHandler()}
+	go in.srv.Serve(in.ln)
+	in.host = in.ln.Addr().String()
 	sc := ha.DefaultSyncConfig()
 	sc.NodeID, sc.Role = "bng-standby", ha.RoleStandby
 	sc.Partner = &ha.PartnerInfo{NodeID: "bng-active", Endpoint: in.host}
@@ -173,7 +185,10 @@ func (in *inst) openStream(req *http.Request) (*http.Response, error) {
 	in.mu.Unlock()
 	up := resp.Body
 	go in.pump(up)
-	resp.Body = &gatedBody{in: in}
+	gb := &gatedBody{in: in}
+	// like a real response body, a blocked Read ends when the request's context is cancelled
+	context.AfterFunc(req.Context(), func() { gb.Close() })
+	resp.Body = gb
 	return resp, nil
 }
 
@@ -210,6 +225,7 @@ func parseEvent(raw []byte) streamEvent {
 			var m ha.SyncMessage
 			if json.Unmarshal([]byte(l[6:]), &m) == nil {
 				ev.kind = string(m.Type)
+				ev.seq = m.SequenceNum
 				ev.heartbeat = m.Type == ha.SyncTypeHeartbeat
 				if len(m.Sessions) > 0 {
 					ev.id, ev.v = sessNum(m.Sessions[0].SessionID), versionOf(&m.Sessions[0])
@@ -235,17 +251,22 @@ func (b *gatedBody) Read(p []byte) (int, error) {
 	}
 	in.mu.Lock()
 	in.idle++ // everything handed over so far has been processed
+	in.idleAfterHand = true
 	in.cond.Broadcast()
 	for {
 		if in.closed {
 			in.mu.Unlock()
 			return 0, io.EOF
 		}
-		if len(in.inbox) > 0 && (in.inbox[0].heartbeat || in.release > 0) {
+		if len(in.inbox) > 0 && (in.inbox[0].heartbeat || in.release > 0 || in.free) {
 			ev := in.inbox[0]
 			in.inbox = in.inbox[1:]
 			if !ev.heartbeat {
-				in.release--
+				if !in.free {
+					in.release--
+				}
+				in.handedSeq, in.idleAfterHand = ev.seq, false
+				in.cond.Broadcast()
 			}
 			in.mu.Unlock()
 			n := copy(p, ev.raw)
@@ -589,9 +610,10 @@ func (in *inst) Close() {
 	if in.phase == "streaming" {
 		in.cut()
 	}
-	in.srv.CloseClientConnections()
+	// unregister before the port is released: the next instance may be given the same port at once
+	byHost.CompareAndDelete(in.host, in)
 	in.srv.Close()
+	in.ln.Close()
 	in.active.Stop()
 	in.standby.Stop()
-	byHost.Delete(in.host)
 }
